@@ -5,7 +5,9 @@ CFG = {
              "per-row dithering loop, the sub-sampled per-row chunk loop with partial blocks, block_universal with its "
              "padded last row group, bi_planar_universal) write exactly the layout length surface_bytes for EVERY width, "
              "height, buffer and chunk size; with C11's history invariant a finished encoder has written exactly "
-             "the layout's data length with every surface at its layout offset. Tied to the code over all 57 encodable "
+             "the layout's data length with every surface at its layout offset, and (theorem reopen, composing the header, "
+             "layout, encoder and decoder models) the written header parses back to the same header and layout while a decoder "
+             "walking all surfaces ends exactly at the last byte written. Tied to the code over all 57 encodable "
              "formats x sizes (all residues; 512-pixel chunk boundaries) x {texture, array, cube, volume} x mips "
              "{none, explicit, generated} x 12 input colours x pitch x quality x dithering x parallel: byte counts after "
              "every call are compared with the model, and every finished file is re-opened and fully decoded.",
